@@ -54,6 +54,11 @@ MaxOccur(o, i, igaps, ins) ==
 MaxTotal(o, i, igaps, ins) ==
   LET col == ColUp(o, i) IN Cardinality({k \in 1..Len(col) : ~Excluded(o, col[k], igaps, ins)})
 
+\* the per-site totals MaxCharStats returns next to the characters (the command line does not print them)
+MaxCharTotals(o, igaps, ins) ==
+  [i \in 1..o.len |-> LET col == ColUp(o, i) IN
+                        IF {c \in Range(col) : ~Excluded(o, c, igaps, ins)} = {} THEN 0 ELSE MaxTotal(o, i, igaps, ins)]
+
 \* ---- entropy, variability ------------------------------------------------------------
 EntropyErr(o, site) == site < 0 \/ site >= o.len
 EntropyCounts(o, site, rmgaps) ==
